@@ -68,3 +68,6 @@ add("F36","C08","fixed","read-content-not-signed","the size field of the (unsign
 addfile("F37","C14","fixed","io-contract:h.readat",
     "Read, ReadAt, Write, WriteAt and WriteString returned the count -1 together with every error (permission, is-a-directory, invalid offset, failed restore): io.Reader/io.Writer require 0 <= n <= len(p); io.ReadAll, bytes.Buffer.ReadFrom (afero.ReadFile) and bufio panic on a negative count, so a failed read crashed standard consumers instead of handing them the error. The harness had tolerated n=-1 until a sub-agent's demonstration tripped over the panic",
     commit="report a count of 0 together with an error", also=["C02","C06"])
+addfile("F38","C03","fixed","failed-write-corrupts-content",
+    "one transient drive read error while the first Write on a handle restores the file's existing content: Write returns the error, but the half-restored (here: empty) write buffer stayed attached to the handle and Close archived it - the file's 13 bytes were replaced by an empty file although the only call that touched it had failed (first noticed as a side remark in a sub-agent's report)",
+    commit="a write whose restore of the existing content fails no longer leaves")
